@@ -18,6 +18,7 @@ groups over the range starting at constant 1 up to captures.len(), missing group
 collected from the whole map without order-dependent short-circuit (filter_map + collect, no find/first);
 (R5) the runner's mapping of the three outcomes = C02.R7.
 Not decided: regex matching itself, behaviour on particular step texts.
+Added after the second seeded round: (R6) attribute functions with a slice argument get one element per capture group (= C19.R4, on the zoo).
 """
 DECLINED = ["regex engine semantics", "matching results for particular texts"]
 ASSUMPTIONS = ["Itertools::sorted sorts by Ord; HashMap iteration order is irrelevant because of collect + sort / exact-count classification"]
